@@ -242,6 +242,9 @@ func (r *CheckRun) runNative(pkgDir string, jobs []*replayJob) error {
 				keep := filepath.Join(os.TempDir(), fmt.Sprintf("gosmt-single-%d.witness.json", os.Getpid()))
 				os.WriteFile(keep, b, 0o644)
 				single := &replayJob{hr: j.hr, path: j.path, wf: keep}
+				if j.schedOps != nil {
+					_, single.extraOverlay, _ = r.buildSchedule(j.path.Ops)
+				}
 				err = r.runNative(pkgDir, []*replayJob{single})
 				os.Remove(keep)
 				if single.out != nil {
